@@ -67,6 +67,10 @@ namespace via
 
           try
           {
+            // Ignore whitespace, e.g. the line breaks inserted by encode
+            input.erase(std::remove_if(input.begin(), input.end(),
+                        [](unsigned char c){ return std::isspace(c); }), input.end());
+
             // If the input isn't a multiple of 4, pad with =
             size_t num_pad_chars((4 - input.size() % 4) % 4);
             input.append(num_pad_chars, PAD_CHARACTER);
